@@ -32,6 +32,7 @@ import ZoektModel.C01.IterLemmas
 import ZoektModel.C01.IterSpec
 import ZoektModel.C01.DocIterLemmas
 import ZoektModel.C01.SubstrLemmas
+import ZoektModel.C01.LineLemmas
 namespace ZoektModel.C01
 
 /-- **one `evalMatchTree` call** on a consistent tree: the tree stays consistent, its plain value is unchanged, a decided
@@ -339,6 +340,22 @@ example : exTreeS.OkS exCtxS 0 := by
   rw [List.length_drop] at hl
   rcases this with e | e | e | e <;> rw [e] at hl <;> simp at hl <;> omega
 example : expected exCtxS exTreeS = [0, 2] := by decide
+
+/-- **same-line shortcut, the merge loop** (`andLineMatchTree.matches`): over increasing, non-overlapping line ranges
+    and sorted candidate lists of the other children, the `nextLine` / `nextChild` / `nextCandidate` loop (with its
+    line-skipping `continue nextLine`) answers `matchesFound` iff some line range holds a candidate of every child -/
+theorem sameLine_loop_spec (lines : List (Nat × Nat)) (ch : List (List Nat)) (hl : LinesOK lines)
+    (hs : ∀ c, c ∈ ch → SortedC c) :
+    lineLoop (lines.length + 1) lines ch (ch.length + 1) = true ↔ ∃ l, l ∈ lines ∧ AllIn l.1 l.2 ch :=
+  lineLoop_spec (lines.length + 1) lines ch (by omega) hl hs
+
+/-! non-vacuity: lines [0,5) [5,9) [9,20); children with candidates {1, 10} and {6, 12}: only the third line holds both -/
+example : LinesOK [(0, 5), (5, 9), (9, 20)] ∧ (∀ c, c ∈ [[1, 10], [6, 12]] → SortedC c) := by
+  refine ⟨⟨by simp, ?_⟩, ?_⟩
+  · intro l hl; simp at hl; rcases hl with h | h | h <;> subst h <;> simp
+  · intro c hc; simp at hc; rcases hc with h | h <;> subst h <;> simp [SortedC]
+example : lineLoop 4 [(0, 5), (5, 9), (9, 20)] [[1, 10], [6, 12]] 3 = true ∧
+    lineLoop 3 [(0, 5), (5, 9)] [[1, 10], [6, 12]] 3 = false := by decide
 
 /-! non-vacuity: a shard of 5 documents (document 3 dead), tree `and[doc-predicate, not(regexp verdicts), or[branch, none]]` -/
 def exCtx : Ctx := ⟨[[97], [98], [99], [100], [101]], [[], [], [], [], []], [true, true, true, false, true]⟩
